@@ -119,6 +119,10 @@ func GenLeaf(rng *hx.Rng) *Node {
 			// a line feed that is content, not a line ending, in a message whose lines end in CRLF
 			n.Content = append([]byte("stray\nline feed inside a line\r\n"), n.Content...)
 		}
+		if (n.CTE == "8bit" || n.CTE == "binary" || n.CTE == "7bit") && size > 40 && rng.Chance(12) {
+			// a Unix text file attached as it is: every line ends in a bare line feed, there is no CRLF in the part at all
+			n.Content = bytes.ReplaceAll(n.Content, []byte("\r\n"), []byte("\n"))
+		}
 		if rng.Chance(15) {
 			n.Filename = rng.Pick([]string{"notes.txt", "read me.txt", "a(b).txt"})
 			n.Disposition = rng.Pick([]string{"attachment", "inline"})
